@@ -53,6 +53,11 @@ OBJ = {
     'tx': ('tx', [0.0, 1.0, 0.0, 2.5, 1.0, 0.5]),
     'gq': ('gq', [1.0, 2.0, 0.5, 0.3, -0.2, 0.1, 1.0, -1.0, 0.5, -6.0]),
     'sq': ('sq', [1.0, 2.0, -0.5, 0.3, -0.2, 0.1, -4.0, 1.0, -1.0, 0.5]),
+    # the same loci with the (homogeneous) equation scaled: coefficients far below / above 1
+    'gq*1e-12': ('gq', [1.0e-12 * v for v in [1.0, 2.0, 0.5, 0.3, -0.2, 0.1, 1.0, -1.0, 0.5, -6.0]]),
+    'sq*1e-12': ('sq', [1.0e-12 * v for v in [1.0, 2.0, -0.5, 0.3, -0.2, 0.1, -4.0]] + [1.0, -1.0, 0.5]),
+    'gq*1e9': ('gq', [1.0e9 * v for v in [1.0, 2.0, 0.5, 0.3, -0.2, 0.1, 1.0, -1.0, 0.5, -6.0]]),
+    'p*1e-9': ('p', [1.0e-9, 2.0e-9, -1.0e-9, 0.5e-9]),
 }
 MACRO = {
     'box': lambda: c03.body_box((-1.0, 0.5, -2.0), (3.0, 0.0, 0.0), (0.0, 0.0, 2.0), (0.0, -4.0, 0.0)),
@@ -66,7 +71,7 @@ MACRO = {
                                 [(1, 2, 3), (1, 2, 4), (2, 3, 4), (3, 1, 4)]),
 }
 OBJ_KINDS = ['px', 'p', 's', 'c/x', 'cz', 'kx+', 'kx-', 'k/y', 'k/z+', 'tz', 'tze', 'tx', 'gq', 'sq',
-             'rpp', 'rcc'] + sorted(MACRO)
+             'rpp', 'rcc', 'gq*1e-12', 'sq*1e-12', 'gq*1e9', 'p*1e-9'] + sorted(MACRO)
 
 DISPL = [(0.0, 0.0, 0.0), (1.0, -2.0, 3.0)]
 _PERMS = refsem.signed_permutations()
